@@ -474,7 +474,8 @@ def c05_group(group, corrupt=None, only=None) -> dict:
     nb = len(group)
     db = _obs_database(group, shifts)
     V = {lab: log(Variable(f'a_{lab}')) for lab in labels}
-    av = {lab: Variable(f'v_{lab}') for lab in labels}
+    # availabilities are keyed by alternative: the dictionary is written in ANOTHER key order than the utilities
+    av = {lab: Variable(f'v_{lab}') for lab in reversed(labels)}
     choice = Variable('choice')
     want = [vals(r['p'], r.get('refs')) for r in group]
     if corrupt is not None:
@@ -577,7 +578,7 @@ def c05_numeric(r) -> dict:
     labels = r['labels']
     J = len(labels)
     V = {lab: log(Numeric(float(a))) for lab, a in zip(labels, r['a'])}
-    av = {lab: Numeric(int(x)) for lab, x in zip(labels, r['av'])}
+    av = {lab: Numeric(int(x)) for lab, x in reversed(list(zip(labels, r['av'])))}
     want = vals(r['p'], r.get('refs'))
     tol = TOL_EXACT if r['exact'] else TOL_TERM
     for vname, fam, is_log, build in variants(r, V, av, what='c06', scale=lambda x: Beta('mu_scale', x, None, None, 0)):
@@ -704,7 +705,7 @@ def c06_group(group, generating=None, corrupt_dg=None, tuple_param=float, nl_of=
     if 'reductions' in parts:
         db = _obs_database(group, name='c06')
         V = {lab: log(Variable(f'a_{lab}')) for lab in labels}
-        av = {lab: Variable(f'v_{lab}') for lab in labels}
+        av = {lab: Variable(f'v_{lab}') for lab in reversed(labels)}
         got = {vname: ev_all(build, db) for vname, fam, is_log, build in variants(r0, V, av, what='c06', tuple_param=tuple_param)}
         tol_term = lambda r: TOL_EXACT if r['exact'] else TOL_TERM  # noqa
         tol_same = lambda r: TOL_SAME  # noqa
